@@ -327,6 +327,28 @@ def row_provenance(P, rep, F, row_loop, call, dim, rule):
         txt = norm.render(P, e)
         if "convert_spherical" in txt and j == 0:
             problems.append("the radius column is scaled by the degree conversion")
+    # 'convert spherical': (R, long, lat) goes through Utilities::spherical_to_cartesian_coordinates, under the flag only
+    if dim == 3:
+        conv = []
+        for n in F.walk(row_loop):
+            if n.get("k") in ("BinaryOperator", "CXXOperatorCallExpr") and n.get("op") == "=" and coords.get("k") == "DeclRefExpr" and astq.is_ref_to(n["c"][0], coords["r"]):
+                conv.append(n)
+        if len(conv) != 1:
+            problems.append("coordinates are reassigned %d times (expected once, under 'convert spherical')" % len(conv))
+        else:
+            c = conv[0]
+            g = astq.enclosing(F, c, ("IfStmt",))
+            gtxt = norm.render(P, g["c"][0]) if g is not None else ""
+            callee = None
+            for x in F.walk(c["c"][1]):
+                if x.get("k") == "CallExpr" and x.get("callee"):
+                    callee = P.d(x["callee"]).get("qn")
+                elif x.get("k") == "CXXMemberCallExpr" and x.get("callee") and callee is None and P.d(x["callee"]).get("n") != "get_array":
+                    callee = P.d(x["callee"]).get("qn")
+            if gtxt.strip("()") != "convert_spherical":
+                problems.append("the spherical conversion is guarded by `%s`, not by the 'convert spherical' option" % gtxt)
+            if callee != "WorldBuilder::Utilities::spherical_to_cartesian_coordinates":
+                problems.append("under 'convert spherical' the row is converted by %s, not by Utilities::spherical_to_cartesian_coordinates" % callee)
     if problems:
         rep.violation(rule, "dim %d: row query arguments" % dim, F.nloc(call), F.qn, norm.render(P, call)[:120], "; ".join(problems),
                       key="%s|dim%d|row-args" % (rule, dim), witness="data file whose columns differ from each other")
@@ -744,3 +766,149 @@ def filter_copy(P, rep, rule="FILTER"):
                           key="%s|%s" % (rule, pr[:40]), witness="--filtered / --by-tag on a world with two features")
     else:
         rep.ok(rule, "filter_vtu_mesh: keep rule, first-visit block, per-data-set copy, connectivity remap", F.loc, F.qn)
+
+
+# ------------------------------------------------------------------------------------------------
+def grid_depth(P, rep, rule="GRID.depth"):
+    """'Depth' is the distance below the top of the grid: wherever a node's vertical coordinate and depth are set together,
+    their sum is the top of the grid (z_max / outer_radius); in sphere/annulus grids depth = outer_radius - |position|"""
+    rep.rule(rule, "in every grid generator the node depth complements the node's vertical coordinate: grid_z[c] + grid_depth[c] == z_max "
+                   "(cartesian) resp. == outer_radius (chunk: radius + depth), identically in the loop indices; annulus/sphere: "
+                   "grid_depth[c] = outer_radius - sqrt(sum of squares of the node's coordinates) of the same node c")
+    F = main_of(P, "gwb-grid")
+    n = 0
+    sym = norm.Sym(P, F, inline_locals=True)
+    R = lambda x: norm.render(P, x, nocast=True).replace(" ", "")
+    for x in F.walk():
+        if not (x.get("k") == "BinaryOperator" and x.get("op") == "="):
+            continue
+        s = astq.subscript(x["c"][0])
+        if not (s and sc(s[0]).get("n") == "grid_depth"):
+            continue
+        idx = R(s[1])
+        rhs = sc(x["c"][1])
+        blk = astq.enclosing(F, x, ("CompoundStmt",))
+        # tidy-up assignment: grid_depth[c] = |grid_depth[c]| < eps ? 0 : grid_depth[c]
+        if rhs.get("k") == "ConditionalOperator" and R(rhs["c"][2]) == R(x["c"][0]):
+            continue
+        n += 1
+        zasg = None
+        for y in blk["c"]:
+            if y is x:
+                break
+            if y.get("k") == "BinaryOperator" and y.get("op") == "=":
+                s2 = astq.subscript(y["c"][0])
+                if s2 and sc(s2[0]).get("n") == "grid_z" and R(s2[1]) == idx:
+                    zasg = y          # the closest preceding one (the index variable is stepped between nodes)
+            elif y.get("k") == "UnaryOperator" and y.get("op") in ("++", "--") and R(y["c"][0]) == idx:
+                zasg = None
+        txt = R(rhs)
+        if "sqrt" in txt:
+            m = re.match(r"^\(outer_radius-(?:std::)?sqrt\((.*)\)\)$", txt)
+            terms = sorted(re.findall(r"\(grid_([xyz])\[%s\]\*grid_\1\[%s\]\)" % (re.escape(idx), re.escape(idx)), m.group(1))) if m else []
+            if m and terms in (["x", "z"], ["x", "y", "z"]):
+                rep.ok(rule, "line %s: depth = outer_radius - |(%s)|" % (x.get("l"), ",".join(terms)), F.nloc(x), F.qn)
+            else:
+                rep.violation(rule, "line %s: spherical depth is %s" % (x.get("l"), txt[:80]), F.nloc(x), F.qn, norm.render(P, x)[:140],
+                              "expected outer_radius - sqrt(x^2 (+ y^2) + z^2) of the same node", key="%s|sqrt|%s" % (rule, txt[:30]), witness="annulus/sphere grid")
+            continue
+        if zasg is None:
+            rep.unknown(rule, "depth assignment at %s has no vertical coordinate assignment next to it" % F.nloc(x))
+            continue
+        total = sp.simplify(sp.expand(sym(zasg["c"][1]) + sym(rhs)))
+        names = {str(v).split("@")[0] for v in total.free_symbols}
+        if total.is_Symbol and names <= {"z_max", "outer_radius"}:
+            rep.ok(rule, "line %s: grid_z + grid_depth = %s" % (x.get("l"), list(names)[0]), F.nloc(x), F.qn)
+        else:
+            rep.violation(rule, "line %s: grid_z[c] + grid_depth[c] = %s" % (x.get("l"), total), F.nloc(x), F.qn, norm.render(P, x)[:140],
+                          "Depth is not the distance below the top of the grid for every bound", key="%s|sum|%s" % (rule, str(total)[:40]),
+                          witness="a grid whose lower bound is not 0")
+    rep.floor(rule, n, 20, "node depth assignments")
+
+
+def filter_call_sites(P, rep, rule="FILTER.calls"):
+    rep.rule(rule, "filter_vtu_mesh appends to its output mesh and data sets: at every call the output containers are objects declared in the "
+                   "same iteration (block) as the call and not used before it, so each filtered file starts empty")
+    FV = P.funcs_named("filter_vtu_mesh")
+    if len(FV) != 1:
+        rep.unknown(rule, "filter_vtu_mesh not found")
+        return
+    FV = FV[0]
+    n = 0
+    for F, call in P.callsites.get(FV.key, []):
+        if call.get("k") != "CallExpr":
+            continue
+        n += 1
+        args = call["c"][1:]
+        loop = astq.enclosing(F, call, astq.LOOPS)
+        bad = []
+        for a in args[4:6]:
+            a0 = sc(a)
+            if a0.get("k") != "DeclRefExpr":
+                bad.append("%s is not a local object" % norm.render(P, a0))
+                continue
+            decl = None
+            for x in F.walk():
+                if x.get("k") == "VarDecl" and x.get("r") == a0["r"]:
+                    decl = x
+            if decl is None:
+                bad.append("%s is not declared in main" % a0.get("n"))
+                continue
+            dloop = astq.enclosing(F, decl, astq.LOOPS)
+            if (dloop["i"] if dloop else None) != (loop["i"] if loop else None):
+                bad.append("%s is declared outside the loop that calls the filter (it accumulates across iterations)" % a0.get("n"))
+            # a mesh wraps references to its component vectors: those must be fresh too
+            if decl.get("c"):
+                for y in F.walk(decl["c"][0]):
+                    if y.get("k") == "DeclRefExpr" and P.d(y["r"]).get("storage") == "local":
+                        d2 = None
+                        for x in F.walk():
+                            if x.get("k") == "VarDecl" and x.get("r") == y["r"]:
+                                d2 = x
+                        l2 = astq.enclosing(F, d2, astq.LOOPS) if d2 is not None else None
+                        if d2 is not None and (l2["i"] if l2 else None) != (loop["i"] if loop else None):
+                            bad.append("%s (part of %s) is declared outside the calling loop" % (y.get("n"), a0.get("n")))
+        if bad:
+            rep.violation(rule, "filter_vtu_mesh call at line %s: %s" % (call.get("l"), "; ".join(sorted(set(bad)))), F.nloc(call), F.qn, norm.render(P, call)[:120],
+                          "later filtered files also contain the cells and node data of earlier ones", key="%s|%s" % (rule, "loop" if loop else "top"),
+                          witness="--by-tag on a world with two tagged features: the second file")
+        else:
+            rep.ok(rule, "call at line %s: output mesh and data declared in the calling %s" % (call.get("l"), "iteration" if loop else "block"), F.nloc(call), F.qn)
+    rep.floor(rule, n, 2, "calls to filter_vtu_mesh")
+
+
+
+# ------------------------------------------------------------------------------------------------
+LENIENT_PARSERS = {"strtod", "strtof", "strtold", "atof", "atoi", "atol", "std::strtod", "std::strtof", "std::atof", "std::atoi", "std::atol",
+                   "std::stod", "std::stof", "std::stoi", "std::stol", "std::stoul", "sscanf", "std::sscanf", "std::strtol", "strtol", "std::strtoul", "strtoul"}
+
+
+def number_parsers(P, rep, rule="LINT.number-parsers"):
+    """tokens of data/grid/option lines are converted by Utilities::string_to_double/int/unsigned_int only (they reject trailing
+    garbage, nan/inf, hex and overflow); the lenient C conversions are not used anywhere in the library or the tools"""
+    rep.rule(rule, "no lenient C/C++ number parser (strtod, atof, stod, sscanf, ...) is used in the library or the tools: they accept "
+                   "'nan', 'inf', hexadecimal and overflowing tokens and ignore trailing garbage, so a malformed row would be misread "
+                   "instead of reported; gwb-dat converts row tokens with Utilities::string_to_double only")
+    n = 0
+    for F in P.funcs.values():
+        n += 1
+        for x in F.walk():
+            if x.get("k") in ("CallExpr",) and x.get("callee"):
+                q = P.d(x["callee"]).get("qn", "")
+                if q in LENIENT_PARSERS:
+                    rep.violation(rule, "%s calls %s" % (F.qn, q), F.nloc(x), F.qn, norm.render(P, x)[:100],
+                                  "malformed numeric tokens (nan, inf, 0x..., 1e999, '12abc') are accepted silently", key="%s|%s|%s" % (rule, F.qn, q),
+                                  witness="a data row containing the token 'nan' or '0x10'")
+    # the string_to_* helpers are stream based with a full-consumption test
+    for nm in ("string_to_double", "string_to_int", "string_to_unsigned_int"):
+        G = P.func("WorldBuilder::Utilities::" + nm)
+        has_stream = any("basic_istringstream" in x.get("t", "") for x in G.walk() if x.get("k") == "VarDecl")
+        throws = any(x.get("k") == "IfStmt" and x.get("m") == "WBAssertThrow" for x in G.walk())
+        extract = any(x.get("k") in ("CXXOperatorCallExpr", "CXXMemberCallExpr") and (x.get("op") == ">>" or x.get("c", [{}])[0].get("n") == "operator>>") for x in G.walk())
+        getc = any(x.get("k") == "CXXMemberCallExpr" and x["c"][0].get("n") == "get" for x in G.walk())
+        if has_stream and throws and extract and getc:
+            rep.ok(rule, "%s: stream extraction + trailing-character test + release-active throw" % nm, G.loc, G.qn)
+        else:
+            rep.violation(rule, "%s is not `stream >> value` with a trailing-character test and a release-active throw" % nm, G.loc, G.qn, "",
+                          "malformed numeric tokens are not reported", key="%s|%s|shape" % (rule, nm), witness="token '12abc'")
+    rep.ok(rule, "%d functions scanned for lenient number parsers" % n)
